@@ -17,6 +17,8 @@ SEEDED = os.path.join(VERIF, "seeded")
 # seeds that at their first evaluation were not reported by the check of their own
 # property (the rule named here was added or widened because of them)
 FIRST_MISSED = {
+    "C13-19": "no check reported it -> KA-1: a wait that watches pong expiry also takes the ping tick",
+    "C08-20": "own property silent (reported by C15 RDC-2) -> C08 imports C15",
     "C14-14": "no check reported it -> CHUNK-2 offset-initial looks through a merge in front of the loop (back edges by dominance)",
     "C16-14": "no check reported it -> FLUSH: the record-layer wrappers of NoiseConn delegate to the Machine on every path",
     "C04-14": "no check reported it -> PUBLISH: GetRequestMetadata decodes the auth payload published now",
